@@ -8,15 +8,30 @@ generated spline spaces and data; every expected value comes from an independent
   * basis functions B_j(x) and spline values from scipy.interpolate.BSpline on that knot vector;
   * interpolation coefficients by a dense numpy solve of the (wrapped) collocation matrix at basis.greville (the
     interpolation points ARE what the object defines; they are only checked for being admissible);
-  * integrals by Gauss-Legendre with degree+1 nodes per cell (exact for the piecewise polynomials involved); the oracle
-    checks itself against scipy's exact antiderivative and the closed form (t[j+p+1]-t[j])/(p+1) (-> harness error).
+  * integrals from scipy's exact antiderivative spline taken between the end breakpoints; the oracle checks itself against
+    Gauss-Legendre with degree+1 nodes per cell, the closed form (t[j+p+1]-t[j])/(p+1) and the partition of unity
+    (a disagreement is reported under "errors", never as a violation).  The integral of the REAL interpolant is also taken
+    by Gauss-Legendre per cell on the values of the real Spline1D.eval.
 
-Tolerances are rounding-only bounds from the backward error analysis of LU (Higham, ASNA Thm 9.3/9.4):
-  residual of a solve      |A c - u|_i      <= K n eps ((p+1) max|c| + max|u|)
-  error away from the nodes (clamped, B_j partition of unity => |S-q| <= max|c-c_q|)  <= ||A^-1||_inf * residual bound
-  quadrature  (A^T w = m)  |w.u - I|        <= K n eps (|w|.(|A||c|+|u|) + L max|c|),   |sum w - L| <= K n eps sum(|A^T||w|+|m|)
-with K = 16, n = number of coefficients; all quantities in the bounds come from the oracle's own solution.
-Genuine mistakes (off-by-one, wrong wrap, stale buffer, wrong branch) give O(1) relative deviations.
+Bound: degrees 1-5 x 1..12 cells x clamped/periodic (periodic needs ncells > degree, as the constructor asserts) exhaustively,
+each on uniform breakpoints with both values of the `uniform` flag (=> cubic-uniform fast path for degree 3) and on several
+random / graded / wild non-uniform breakpoint sets, on six domains (unit, 2 pi, shifted, far from the origin, tiny, huge);
+thorough adds 16/20/33 cells and (1-D) degrees 6-8.  2-D: random pairs over all four boundary combinations, different
+degrees/sizes per direction, cubic-uniform pairs, one shared BSplines object for both directions, C/F/strided data.
+
+Tolerances are rounding-only bounds from the backward error analysis of LU (Higham, ASNA Thm 9.3/9.4), K = 16,
+n = number of coefficients, all quantities taken from the oracle's own solution:
+  residual of a solve      |S(x_i) - u_i|   <= K n eps ((p+1) max|c| + max|u|)
+  away from the nodes (clamped; B_j >= 0 sum to 1 => |S-q| <= max|c-c_q|)  <= ||A^-1||_inf * (residual bound) + evaluation
+  quadrature  (A^T w = m)  |w - w*|         <= |A^-T| K n eps (|A^T||w*| + |m|)
+                           |w.u - I|        <= K n eps (|w*|.(|A||c|+|u|) + L max|c|),   |sum w - L| <= sum of the residual bound
+  basis integrals          |m_j - true|     <= 8 K (p+2) eps (t[j+p+1]-t[j])
+plus two representation terms that are also pure rounding: (i) the cubic-uniform path describes the space by
+(xmin, dx = first cell width, ncells), so with float breakpoints its last breakpoint is off by <= (ncells+2) eps max|x|
+(cu_abs / cu_rel below; zero on the general path); (ii) for "all weights equal" the float breakpoints are uniform only up to
+2 eps max|x| and BSplines.greville rounds the points to 15 decimals.  On the unchanged tree the largest observed
+|diff|/tol over all passing cases is 0.24 (quadrature) and 0.02 (interpolation); genuine mistakes (off-by-one, wrong wrap,
+stale buffer, wrong branch, aliasing) give O(1) relative deviations - see the mutation list in the hand-over message.
 
 python -m vf.rt.bounded_splines <C08|C09> <tier> <seed> <repo> [case.json]  -> JSON on stdout
 """
@@ -235,17 +250,17 @@ class Space:
         # exact antiderivative (scipy) against Gauss-Legendre per cell
         m2 = self.qw @ self.colloc_full(self.qx)
         scale = np.abs(self.m_full).max()
-        if np.abs(m2 - self.m_full).max() > self.gl_tol(1.0) + 1e-13 * scale:
+        if np.abs(m2 - self.m_full).max() > self.gl_tol(1.0) + 1e-13 * scale + self.cu_abs:
             raise OracleError('oracle integrals: Gauss-Legendre and antiderivative disagree by %g' % np.abs(m2 - self.m_full).max())
         full = (t[p + 1:] - t[:-p - 1]) / (p + 1)     # integral over the whole support
         inside = (t[:self.ncoef] >= self.a - 1e-14 * self.L) & (t[p + 1:] <= self.b + 1e-14 * self.L)
-        if np.abs(self.m_full - full)[inside].max(initial=0.0) > 1e-12 * scale:
+        if np.abs(self.m_full - full)[inside].max(initial=0.0) > 1e-12 * scale + self.cu_abs:
             raise OracleError('oracle integrals disagree with the closed form')
         if self.periodic:
             wsum = self.m_full[:p] + self.m_full[self.nb:]
-            if np.abs(wsum - full[:p]).max() > 1e-12 * scale:
+            if np.abs(wsum - full[:p]).max() > 1e-12 * scale + self.cu_abs:
                 raise OracleError('oracle integrals: periodic continuation inconsistent')
-        if abs(self.m_full.sum() - self.L) > 1e-12 * self.L:
+        if abs(self.m_full.sum() - self.L) > 1e-12 * self.L + self.cu_abs:
             raise OracleError('oracle integrals do not sum to the domain length')
 
 
